@@ -557,6 +557,10 @@ def lineage_corr(ctx, rng, nmodels, nseeds):
     for i in range(nmodels):
         spec = gen_lineage(rng)
         T = [j * spec["dt"] for j in range(spec["npts"])]
+        if i % 3 == 2:
+            # an uneven grid whose steps grow slowly (the first step is the finest)
+            T = [j * spec["dt"] * (1 + 0.01 * j) for j in range(spec["npts"])]
+            ctx.count("uneven_grids")
         seeds = [rng.randint(1, 2**31) for _ in range(nseeds)]
         M, _ = build_lineage(spec)
         for single in (True, False):
